@@ -80,6 +80,14 @@ static int replay(const char* path, uint64_t seed) {
 			s3.coeffs.assign(s3.ncoeffs(), 1.0f);
 			Table t3; PVA::build(t3, s3, PAD_NAN);
 			EvalPaths p3(t3);
+			// ... and as the last dimension of a 9-D table (eight one-interval order-0 neighbours): lookup and evaluation have no
+			// dimension limit, only the gradient entry points have
+			TableSpec s9; s9.ndim = 9; s9.order.assign(9, 0); s9.order[8] = (uint32_t)g.n;
+			s9.knots.assign(9, std::vector<double>{0, 1}); s9.knots[8] = s1.knots[0];
+			s9.coeffs.resize(s9.ncoeffs());
+			for (auto& v : s9.coeffs) v = (float)rng.range(0.5, 2.0);
+			Table t9; PVA::build(t9, s9, PAD_NAN);
+			EvalPaths p9(t9);
 			for (auto& cs : group) {
 				double x = lattice_to_double(map, cs.x, M);
 				for (int p = 0; p < EvalPaths::NSC; p++) {
@@ -92,6 +100,24 @@ static int replay(const char* path, uint64_t seed) {
 					double v = t1(&x); nev++;
 					if (!cs.ok) { if (!(v == 0)) mismatch("call", "table()", cs, map, "call operator non-zero although lookup must fail", 0, 0); }
 					else { int cc = cs.c; double w = t1.ndsplineeval<float>(&x, &cc, 0); if (memcmp(&v, &w, 8) != 0 && !(std::isnan(v) && std::isnan(w))) mismatch("call", "table()", cs, map, "call operator differs from ndsplineeval at the returned center", 1, cc); }
+				}
+				// 9-D embedding: lookup, then every call operator (zero exactly when lookup fails, else the value at the returned centers)
+				for (int k = 0; k < 2; k++) {
+					double xx[9] = {.5, .5, .5, .5, .5, .5, .5, .5, x}; if (k) xx[(size_t)rng.below(8)] = 1.5;
+					int got[9] = {-77, -77, -77, -77, -77, -77, -77, -77, -77};
+					bool want = cs.ok && k == 0;
+					bool ok = p9.sc((int)(rng.below(EvalPaths::NSC)), xx, got); nev++;
+					if (ok != want) mismatch("accept", "9d", cs, map, "9-D lookup accepted/rejected wrongly (variant " + std::to_string(k) + ")", ok, got[8]);
+					else if (ok && (got[8] != cs.c || got[0] != 0 || got[7] != 0)) mismatch("center", "9d", cs, map, "wrong centers in 9-D", ok, got[8]);
+					for (int p = 0; p < EvalPaths::NCALL; p++) {
+						double v = p9.call(p, xx); nev++;
+						if (!want) { if (!(v == 0)) mismatch("call", std::string("9d ") + EvalPaths::callname(p), cs, map, "call operator non-zero although lookup must fail", 0, 0); }
+						else {
+							int cc[9] = {0, 0, 0, 0, 0, 0, 0, 0, cs.c};
+							double w = p == 2 ? t9.ndsplineeval<double>(xx, cc, 0) : t9.ndsplineeval<float>(xx, cc, 0);
+							if (memcmp(&v, &w, 8) != 0 && !(std::isnan(v) && std::isnan(w))) mismatch("call", std::string("9d ") + EvalPaths::callname(p), cs, map, "call operator differs from ndsplineeval at the returned centers", 1, cs.c);
+						}
+					}
 				}
 				// 3-D embedding: in-range neighbours, then a failing neighbour after and before this axis
 				const double others[3][2] = {{1.5, 0.25}, {1.5, 7.0}, {-1.0, 0.25}};
